@@ -62,6 +62,30 @@ theorem mono_yields (k : Nat) : Mono (fun c => decide (k ≤ c.yields)) := by
   simp only [decide_eq_true_eq] at *
   exact Nat.le_trans hc h.2.2.1
 
+/-- What the walk needs of the oracle: a poll that answered true is followed by a true answer when
+    nothing but that poll happened in between (the flag is not cleared between two consecutive polls).
+    Weaker than `Mono`; it also holds for every oracle that does not look at the poll counter
+    (`PollBlind`), i.e. for every single-threaded history — `kill()` / `reset()` called from hooks or by
+    the consumer between two `next()` — monotone or not. -/
+def Latched (o : Oracle) : Prop := ∀ c : Ctr, o c = true → o { c with polls := c.polls + 1 } = true
+
+theorem Latched.adv1 {o : Oracle} (h : Latched o) {c : Ctr} (s : Site) (b : Bool) (hc : o c = true) :
+    o (advance c [(Ev.poll s b : Ev V)]) = true := h c hc
+
+theorem Mono.latched {o : Oracle} (h : Mono o) : Latched o :=
+  fun c hc => h c _ ⟨Nat.le_succ _, Nat.le_refl _, Nat.le_refl _, Nat.le_refl _⟩ hc
+
+/-- the oracle does not look at the poll counter: the flag is written by hooks and by the consumer
+    between two yields only (no second thread).  Need not be monotone: `reset()` is allowed. -/
+def PollBlind (o : Oracle) : Prop := ∀ c : Ctr, o { c with polls := c.polls + 1 } = o c
+
+theorem PollBlind.latched {o : Oracle} (h : PollBlind o) : Latched o :=
+  fun c hc => by rw [h c]; exact hc
+
+theorem pollBlind_const (b : Bool) : PollBlind (fun _ => b) := fun _ => rfl
+theorem pollBlind_hooks (f : Nat → Bool) : PollBlind (fun c => f c.hooks) := fun _ => rfl
+theorem pollBlind_yields (f : Nat → Bool) : PollBlind (fun c => f c.yields) := fun _ => rfl
+
 /-! ### results -/
 
 @[simp] theorem results_nil : results ([] : List (Ev V)) = [] := rfl
@@ -117,13 +141,13 @@ def pureSubs (cfg : Cfg) (hk : Hooks V) : RelPath → List Name → Tree → Lis
   | rel, kept, .cons n k sub rest =>
     (if enters cfg kept n k then
       .poll .top false :: (pureDirEvs cfg hk (rel ++ [n]) (dirNames sub) ++
-        (pureFileEvs cfg hk (rel ++ [n]) (fileNames sub) ++
-          pureSubs cfg hk (rel ++ [n]) (pureKept cfg hk (rel ++ [n]) (dirNames sub)) sub))
+        (.poll .mid false :: (pureFileEvs cfg hk (rel ++ [n]) (fileNames sub) ++
+          pureSubs cfg hk (rel ++ [n]) (pureKept cfg hk (rel ++ [n]) (dirNames sub)) sub)))
      else []) ++ pureSubs cfg hk rel kept rest
 
 def pureDir (cfg : Cfg) (hk : Hooks V) (rel : RelPath) (t : Tree) : List (Ev V) :=
   .poll .top false :: (pureDirEvs cfg hk rel (dirNames t) ++
-    (pureFileEvs cfg hk rel (fileNames t) ++ pureSubs cfg hk rel (pureKept cfg hk rel (dirNames t)) t))
+    (.poll .mid false :: (pureFileEvs cfg hk rel (fileNames t) ++ pureSubs cfg hk rel (pureKept cfg hk rel (dirNames t)) t)))
 
 /-- the complete event sequence of an uninterrupted run -/
 def pureRun (cfg : Cfg) (hk : Hooks V) (t : Tree) : List (Ev V) := .reset :: pureDir cfg hk [] t
@@ -132,11 +156,6 @@ theorem pureSubs_cons (cfg : Cfg) (hk : Hooks V) (rel : RelPath) (kept : List Na
     (sub rest : Tree) :
     pureSubs cfg hk rel kept (.cons n k sub rest) =
       (if enters cfg kept n k then pureDir cfg hk (rel ++ [n]) sub else []) ++ pureSubs cfg hk rel kept rest := rfl
-
-/-- no value is yielded from inside the folder loop: whenever the validation of a directory raises,
-    `on_error` returns `None` there (true for the base-class `on_error`) -/
-def DirSilent (cfg : Cfg) (hk : Hooks V) : Prop :=
-  ∀ rel n, (validFolder cfg hk rel n).2 = .raise → hk.onError (rel ++ [n]) = none
 
 theorem results_validFolder (cfg : Cfg) (hk : Hooks V) (rel : RelPath) (n : Name) :
     results (validFolder cfg hk rel n).1 = [] := by
@@ -150,23 +169,26 @@ theorem results_validFile (cfg : Cfg) (hk : Hooks V) (rel : RelPath) (n : Name) 
   repeat' split
   all_goals rfl
 
-theorem results_dirStep {cfg : Cfg} {hk : Hooks V} (hs : DirSilent cfg hk) (rel : RelPath) (n : Name) :
-    results (dirStep cfg hk rel n).1 = [] := by
-  have h := hs rel n
-  have he := results_validFolder cfg hk rel n
-  unfold dirStep
-  generalize validFolder cfg hk rel n = r at h he
-  obtain ⟨e, res⟩ := r
-  cases res with
-  | ret keep => simpa using he
-  | raise =>
-    have h' := h rfl
-    simp [results_append, h', yieldOpt] at he ⊢
-    exact he
+/-! ### Lemma A: a run under a latched oracle against the uninterrupted run -/
 
-/-! ### Lemma A: a run under a monotone oracle against the uninterrupted run -/
+/-- a view of the event sequence that does not see the polls (`yieldOf`: the values handed to the
+    consumer; `nonPoll`: every hook invocation and every value) -/
+def PollFree {W : Type} (g : Ev V → Option W) : Prop := ∀ s b, g (.poll s b) = none
 
-theorem dirLoop_cold {o : Oracle} (hm : Mono o) (cfg : Cfg) (hk : Hooks V) (rel : RelPath) :
+theorem pollFree_yieldOf : PollFree (yieldOf : Ev V → Option V) := fun _ _ => rfl
+
+/-- the event itself unless it is a poll -/
+def nonPoll : Ev V → Option (Ev V)
+  | .poll _ _ => none
+  | e => some e
+
+theorem pollFree_nonPoll : PollFree (nonPoll : Ev V → Option (Ev V)) := fun _ _ => rfl
+
+theorem view_poll {W : Type} {g : Ev V → Option W} (hg : PollFree g) (s : Site) (b : Bool) (l : List (Ev V)) :
+    (Ev.poll s b :: l).filterMap g = l.filterMap g := by
+  rw [List.filterMap_cons, hg s b]
+
+theorem dirLoop_cold {o : Oracle} (hl : Latched o) (cfg : Cfg) (hk : Hooks V) (rel : RelPath) :
     ∀ (ns : List Name) (c : Ctr), o (advance c (dirLoop o cfg hk rel ns c).1) = false →
       dirLoop o cfg hk rel ns c = (pureDirEvs cfg hk rel ns, pureKept cfg hk rel ns) := by
   intro ns
@@ -179,7 +201,7 @@ theorem dirLoop_cold {o : Oracle} (hm : Mono o) (cfg : Cfg) (hk : Hooks V) (rel 
     | true =>
       simp only [hc, if_true] at h
       rw [advance_append] at h
-      rw [hm.adv [Ev.poll Site.folder true] hc] at h
+      rw [hl.adv1 Site.folder true hc] at h
       cases h
     | false =>
       simp only [hc, Bool.false_eq_true, if_false] at h ⊢
@@ -187,26 +209,24 @@ theorem dirLoop_cold {o : Oracle} (hm : Mono o) (cfg : Cfg) (hk : Hooks V) (rel 
       rw [ih _ h]
       simp [pureDirEvs, pureKept]
 
-theorem results_dirLoop {cfg : Cfg} {hk : Hooks V} (hs : DirSilent cfg hk) (o : Oracle) (rel : RelPath) :
-    ∀ (ns : List Name) (c : Ctr), results (dirLoop o cfg hk rel ns c).1 = [] := by
+/-- whatever the oracle, what the folder loop shows is a prefix of what the complete loop shows -/
+theorem dirLoop_prefix {W : Type} {g : Ev V → Option W} (hg : PollFree g) (o : Oracle) (cfg : Cfg) (hk : Hooks V)
+    (rel : RelPath) :
+    ∀ (ns : List Name) (c : Ctr),
+      (dirLoop o cfg hk rel ns c).1.filterMap g <+: (pureDirEvs cfg hk rel ns).filterMap g := by
   intro ns
   induction ns with
-  | nil => intro c; rfl
+  | nil => intro c; exact List.prefix_refl _
   | cons n ns ih =>
     intro c
-    simp only [dirLoop]
+    simp only [dirLoop, pureDirEvs]
     split
-    · simp [results_append, results_dirStep hs]
-    · simp [results_append, results_dirStep hs, ih]
+    · simp only [List.filterMap_append, view_poll hg, List.filterMap_nil, List.append_nil]
+      exact List.prefix_append _ _
+    · simp only [List.filterMap_append, view_poll hg]
+      exact (List.prefix_append_right_inj _).mpr (ih _)
 
-theorem results_pureDirEvs {cfg : Cfg} {hk : Hooks V} (hs : DirSilent cfg hk) (rel : RelPath) :
-    ∀ ns : List Name, results (pureDirEvs cfg hk rel ns) = [] := by
-  intro ns
-  induction ns with
-  | nil => rfl
-  | cons n ns ih => simp [pureDirEvs, results_append, results_dirStep hs, ih]
-
-theorem fileLoop_cold {o : Oracle} (hm : Mono o) (cfg : Cfg) (hk : Hooks V) (rel : RelPath) :
+theorem fileLoop_cold {o : Oracle} (hl : Latched o) (cfg : Cfg) (hk : Hooks V) (rel : RelPath) :
     ∀ (ns : List Name) (c : Ctr), o (advance c (fileLoop o cfg hk rel ns c)) = false →
       fileLoop o cfg hk rel ns c = pureFileEvs cfg hk rel ns := by
   intro ns
@@ -219,7 +239,7 @@ theorem fileLoop_cold {o : Oracle} (hm : Mono o) (cfg : Cfg) (hk : Hooks V) (rel
     | true =>
       simp only [hc, if_true] at h
       rw [advance_append] at h
-      rw [hm.adv [Ev.poll Site.file true] hc] at h
+      rw [hl.adv1 Site.file true hc] at h
       cases h
     | false =>
       simp only [hc, Bool.false_eq_true, if_false] at h ⊢
@@ -227,10 +247,11 @@ theorem fileLoop_cold {o : Oracle} (hm : Mono o) (cfg : Cfg) (hk : Hooks V) (rel
       rw [ih _ h]
       simp [pureFileEvs]
 
-/-- whatever the oracle, the values the file loop yields are a prefix of those of the complete loop -/
-theorem fileLoop_prefix (o : Oracle) (cfg : Cfg) (hk : Hooks V) (rel : RelPath) :
+/-- whatever the oracle, what the file loop shows is a prefix of what the complete loop shows -/
+theorem fileLoop_prefix {W : Type} {g : Ev V → Option W} (hg : PollFree g) (o : Oracle) (cfg : Cfg) (hk : Hooks V)
+    (rel : RelPath) :
     ∀ (ns : List Name) (c : Ctr),
-      results (fileLoop o cfg hk rel ns c) <+: results (pureFileEvs cfg hk rel ns) := by
+      (fileLoop o cfg hk rel ns c).filterMap g <+: (pureFileEvs cfg hk rel ns).filterMap g := by
   intro ns
   induction ns with
   | nil => intro c; exact List.prefix_refl _
@@ -238,105 +259,125 @@ theorem fileLoop_prefix (o : Oracle) (cfg : Cfg) (hk : Hooks V) (rel : RelPath) 
     intro c
     simp only [fileLoop, pureFileEvs]
     split
-    · simp only [results_append, results_poll, results_nil, List.append_nil]
+    · simp only [List.filterMap_append, view_poll hg, List.filterMap_nil, List.append_nil]
       exact List.prefix_append _ _
-    · simp only [results_append, results_poll]
+    · simp only [List.filterMap_append, view_poll hg]
       exact (List.prefix_append_right_inj _).mpr (ih _)
 
-/-- the three facts about a component of the walk that make the prefix theorem go through
-    (`S` = "the folder loop yields nothing", needed for the last two) -/
-structure Agrees (S : Prop) (o : Oracle) (c : Ctr) (evs pure : List (Ev V)) (stop : Bool) : Prop where
+/-- the three facts about a component of the walk that make the prefix theorem go through, for a
+    poll-free view `g` of the events -/
+structure Agrees {W : Type} (g : Ev V → Option W) (o : Oracle) (c : Ctr) (evs pure : List (Ev V)) (stop : Bool) :
+    Prop where
   /-- the clock is not hot afterwards: the component ran exactly as in the uninterrupted run -/
   cold : o (advance c evs) = false → evs = pure ∧ stop = false
-  /-- the clock was hot on entry: nothing is yielded -/
-  hot : S → o c = true → results evs = []
-  pre : S → results evs <+: results pure
+  /-- the clock was hot on entry: nothing but polls happens, and the clock is hot afterwards -/
+  hot : o c = true → evs.filterMap g = [] ∧ o (advance c evs) = true
+  pre : evs.filterMap g <+: pure.filterMap g
 
-theorem walkDir_agrees_of_subs {o : Oracle} (hm : Mono o) {cfg : Cfg} {hk : Hooks V}
-    (t : Tree)
-    (hsub : ∀ rel kept c, Agrees (DirSilent cfg hk) o c (walkSubs o cfg hk rel kept t c).evs
+theorem Agrees.entry_cold {W : Type} {g : Ev V → Option W} {o : Oracle} {c : Ctr} {evs pure : List (Ev V)}
+    {stop : Bool} (h : Agrees g o c evs pure stop) (hx : o (advance c evs) = false) : o c = false := by
+  cases hc : o c with
+  | false => rfl
+  | true => rw [(h.hot hc).2] at hx; cases hx
+
+theorem walkDir_agrees_of_subs {W : Type} {g : Ev V → Option W} (hg : PollFree g) {o : Oracle} (hl : Latched o)
+    {cfg : Cfg} {hk : Hooks V} (t : Tree)
+    (hsub : ∀ rel kept c, Agrees g o c (walkSubs o cfg hk rel kept t c).evs
               (pureSubs cfg hk rel kept t) (walkSubs o cfg hk rel kept t c).stop) :
-    ∀ rel c, Agrees (DirSilent cfg hk) o c (walkDir o cfg hk rel t c).evs (pureDir cfg hk rel t)
+    ∀ rel c, Agrees g o c (walkDir o cfg hk rel t c).evs (pureDir cfg hk rel t)
       (walkDir o cfg hk rel t c).stop := by
   intro rel c
   unfold walkDir dirBody
   cases hc : o c with
   | true =>
     simp only [if_true]
-    refine ⟨?_, fun _ _ => rfl, ?_⟩
+    have hx : o (advance c [(Ev.poll Site.top true : Ev V)]) = true := hl.adv1 _ _ hc
+    refine ⟨?_, fun _ => ⟨by rw [view_poll hg]; rfl, hx⟩, ?_⟩
     · intro h
-      rw [hm.adv _ hc] at h
+      rw [hx] at h
       cases h
-    · simp
+    · rw [view_poll hg]
+      exact List.nil_prefix
   | false =>
     simp only [Bool.false_eq_true, if_false]
     -- names for the pieces
     generalize hc1 : c.tick (Ev.poll Site.top false : Ev V) = c1
-    generalize hd : dirLoop o cfg hk rel (dirNames t) c1 = d
-    generalize hc2 : advance c1 d.1 = c2
-    generalize hf : fileLoop o cfg hk rel (fileNames t) c2 = f
-    generalize hc3 : advance c2 f = c3
-    have hS := hsub rel d.2 c3
-    generalize hsv : walkSubs o cfg hk rel d.2 t c3 = s at hS
-    have hadv : advance c (Ev.poll Site.top false :: (d.1 ++ (f ++ s.evs))) = advance c3 s.evs := by
-      rw [advance_cons, hc1, advance_append, hc2, advance_append, hc3]
-    refine ⟨?_, fun _ h => (by rw [hc] at h; cases h), ?_⟩
-    · intro h
-      rw [hadv] at h
-      have h3 : o c3 = false := hm.of_adv_false h
-      have h2 : o c2 = false := by rw [← hc3] at h3; exact hm.of_adv_false h3
-      have hdp := dirLoop_cold hm cfg hk rel (dirNames t) c1 (by rw [hd, hc2]; exact h2)
-      have hfp := fileLoop_cold hm cfg hk rel (fileNames t) c2 (by rw [hf, hc3]; exact h3)
-      rw [hd] at hdp
-      rw [hf] at hfp
-      have hsp := hS.cold h
+    have hDpre := dirLoop_prefix hg o cfg hk rel (dirNames t) c1
+    have hDcold := dirLoop_cold hl cfg hk rel (dirNames t) c1
+    generalize hd : dirLoop o cfg hk rel (dirNames t) c1 = d at hDpre hDcold
+    generalize hc2 : advance c1 d.1 = c2 at hDcold
+    cases h2 : o c2 with
+    | true =>
+      -- the flag is seen by the poll after the folder loop: the walk ends here
+      simp only [if_true]
+      have hadv : advance c (Ev.poll Site.top false :: (d.1 ++ [(Ev.poll Site.mid true : Ev V)]))
+          = advance c2 [(Ev.poll Site.mid true : Ev V)] := by
+        rw [advance_cons, hc1, advance_append, hc2]
+      refine ⟨?_, fun h => (by rw [hc] at h; cases h), ?_⟩
+      · intro h
+        rw [hadv, hl.adv1 _ _ h2] at h
+        cases h
+      · unfold pureDir
+        simp only [view_poll hg, List.filterMap_append, List.filterMap_nil, List.append_nil]
+        exact hDpre.trans (List.prefix_append _ _)
+    | false =>
+      simp only [Bool.false_eq_true, if_false]
+      -- the folder loop was complete
+      have hdp := hDcold h2
       subst hdp
-      subst hfp
-      simp only at hsp
-      unfold pureDir
-      rw [hsp.1]
-      exact ⟨rfl, hsp.2⟩
-    · intro hs
-      have hdres : results d.1 = [] := by rw [← hd]; exact results_dirLoop hs o rel _ _
-      unfold pureDir
-      simp only [results_poll, results_append, hdres, results_pureDirEvs hs, List.nil_append]
-      cases h3 : o c3 with
-      | true =>
-        rw [hS.hot hs h3, List.append_nil]
-        have := fileLoop_prefix o cfg hk rel (fileNames t) c2
-        rw [hf] at this
-        exact List.IsPrefix.trans this (List.prefix_append _ _)
-      | false =>
-        have h2 : o c2 = false := by rw [← hc3] at h3; exact hm.of_adv_false h3
-        have hdp := dirLoop_cold hm cfg hk rel (dirNames t) c1 (by rw [hd, hc2]; exact h2)
-        have hfp := fileLoop_cold hm cfg hk rel (fileNames t) c2 (by rw [hf, hc3]; exact h3)
-        rw [hd] at hdp
-        rw [hf] at hfp
-        subst hdp
+      generalize hc2' : c2.tick (Ev.poll Site.mid false : Ev V) = c2'
+      have hFpre := fileLoop_prefix hg o cfg hk rel (fileNames t) c2'
+      have hFcold := fileLoop_cold hl cfg hk rel (fileNames t) c2'
+      generalize hf : fileLoop o cfg hk rel (fileNames t) c2' = f at hFpre hFcold
+      generalize hc3 : advance c2' f = c3 at hFcold
+      have hS := hsub rel (pureKept cfg hk rel (dirNames t)) c3
+      generalize hsv : walkSubs o cfg hk rel (pureKept cfg hk rel (dirNames t)) t c3 = s at hS
+      have hadv : advance c (Ev.poll Site.top false :: (pureDirEvs cfg hk rel (dirNames t) ++
+          (Ev.poll Site.mid false :: (f ++ s.evs)))) = advance c3 s.evs := by
+        rw [advance_cons, hc1, advance_append, hc2, advance_cons, hc2', advance_append, hc3]
+      refine ⟨?_, fun h => (by rw [hc] at h; cases h), ?_⟩
+      · intro h
+        rw [hadv] at h
+        have h3 : o c3 = false := hS.entry_cold h
+        have hfp := hFcold h3
         subst hfp
-        exact (List.prefix_append_right_inj _).mpr (hS.pre hs)
+        have hsp := hS.cold h
+        unfold pureDir
+        rw [hsp.1]
+        exact ⟨rfl, hsp.2⟩
+      · unfold pureDir
+        simp only [view_poll hg, List.filterMap_append]
+        apply (List.prefix_append_right_inj _).mpr
+        cases h3 : o c3 with
+        | true =>
+          rw [(hS.hot h3).1, List.append_nil]
+          exact hFpre.trans (List.prefix_append _ _)
+        | false =>
+          have hfp := hFcold h3
+          subst hfp
+          exact (List.prefix_append_right_inj _).mpr hS.pre
 
-theorem walkSubs_agrees {o : Oracle} (hm : Mono o) {cfg : Cfg} {hk : Hooks V} :
+theorem walkSubs_agrees {W : Type} {g : Ev V → Option W} (hg : PollFree g) {o : Oracle} (hl : Latched o)
+    {cfg : Cfg} {hk : Hooks V} :
     ∀ (t : Tree) (rel : RelPath) (kept : List Name) (c : Ctr),
-      Agrees (DirSilent cfg hk) o c (walkSubs o cfg hk rel kept t c).evs (pureSubs cfg hk rel kept t)
+      Agrees g o c (walkSubs o cfg hk rel kept t c).evs (pureSubs cfg hk rel kept t)
         (walkSubs o cfg hk rel kept t c).stop := by
   intro t
   induction t with
   | nil =>
     intro rel kept c
-    exact ⟨fun _ => ⟨rfl, rfl⟩, fun _ _ => rfl, fun _ => List.prefix_refl _⟩
+    exact ⟨fun _ => ⟨rfl, rfl⟩, fun h => ⟨rfl, h⟩, List.prefix_refl _⟩
   | cons n k sub rest ihs ihr =>
     intro rel kept c
     rw [walkSubs_cons, pureSubs_cons]
     by_cases he : enters cfg kept n k = true
     · simp only [he, if_true]
-      have hD := walkDir_agrees_of_subs hm sub ihs (rel ++ [n]) c
+      have hD := walkDir_agrees_of_subs hg hl sub ihs (rel ++ [n]) c
       generalize walkDir o cfg hk (rel ++ [n]) sub c = r at hD
       cases hst : r.stop with
       | true =>
         simp only [if_true]
-        refine ⟨?_, hD.hot, fun hs => List.IsPrefix.trans (hD.pre hs)
-          (by rw [results_append]; exact List.prefix_append _ _)⟩
+        refine ⟨?_, hD.hot, hD.pre.trans (by rw [List.filterMap_append]; exact List.prefix_append _ _)⟩
         intro h
         have := (hD.cold h).2
         rw [hst] at this
@@ -348,50 +389,62 @@ theorem walkSubs_agrees {o : Oracle} (hm : Mono o) {cfg : Cfg} {hk : Hooks V} :
         refine ⟨?_, ?_, ?_⟩
         · intro h
           rw [advance_append] at h
-          have h1 := hm.of_adv_false h
+          have h1 := hR.entry_cold h
           have hr := hR.cold h
           rw [(hD.cold h1).1, hr.1]
           exact ⟨rfl, hr.2⟩
-        · intro hs h
-          rw [results_append, hD.hot hs h, hR.hot hs (hm.adv _ h)]
-          rfl
-        · intro hs
-          rw [results_append, results_append]
+        · intro h
+          have h1 := hD.hot h
+          have h2 := hR.hot h1.2
+          rw [List.filterMap_append, h1.1, h2.1, advance_append]
+          exact ⟨rfl, h2.2⟩
+        · rw [List.filterMap_append, List.filterMap_append]
           cases h1 : o (advance c r.evs) with
           | true =>
-            rw [hR.hot hs h1, List.append_nil]
-            exact List.IsPrefix.trans (hD.pre hs) (List.prefix_append _ _)
+            rw [(hR.hot h1).1, List.append_nil]
+            exact hD.pre.trans (List.prefix_append _ _)
           | false =>
             rw [(hD.cold h1).1]
-            exact (List.prefix_append_right_inj _).mpr (hR.pre hs)
+            exact (List.prefix_append_right_inj _).mpr hR.pre
     · simp only [he, Bool.false_eq_true, if_false, List.nil_append]
       exact ihr rel kept c
 
-theorem walkDir_agrees {o : Oracle} (hm : Mono o) (cfg : Cfg) (hk : Hooks V)
-    (t : Tree) (rel : RelPath) (c : Ctr) :
-    Agrees (DirSilent cfg hk) o c (walkDir o cfg hk rel t c).evs (pureDir cfg hk rel t)
+theorem walkDir_agrees {W : Type} {g : Ev V → Option W} (hg : PollFree g) {o : Oracle} (hl : Latched o)
+    (cfg : Cfg) (hk : Hooks V) (t : Tree) (rel : RelPath) (c : Ctr) :
+    Agrees g o c (walkDir o cfg hk rel t c).evs (pureDir cfg hk rel t)
       (walkDir o cfg hk rel t c).stop :=
-  walkDir_agrees_of_subs hm t (walkSubs_agrees hm t) rel c
+  walkDir_agrees_of_subs hg hl t (walkSubs_agrees hg hl t) rel c
 
 /-- the run under the oracle that never aborts is the uninterrupted run -/
 theorem run_false (cfg : Cfg) (hk : Hooks V) (t : Tree) :
     run (fun _ => false) cfg hk t = pureRun cfg hk t := by
   unfold run pureRun
-  rw [((walkDir_agrees (mono_const false) cfg hk t [] _).cold rfl).1]
+  rw [((walkDir_agrees pollFree_yieldOf (mono_const false).latched cfg hk t [] _).cold rfl).1]
 
 /-- a run whose last clock is not hot is the uninterrupted run -/
-theorem run_cold {o : Oracle} (hm : Mono o) (cfg : Cfg) (hk : Hooks V) (t : Tree)
+theorem run_cold {o : Oracle} (hl : Latched o) (cfg : Cfg) (hk : Hooks V) (t : Tree)
     (h : o (advance {} (run o cfg hk t)) = false) : run o cfg hk t = pureRun cfg hk t := by
   unfold run pureRun at *
   have h' : o (advance (advance {} [(Ev.reset : Ev V)]) (walkDir o cfg hk [] t (advance {} [(Ev.reset : Ev V)])).evs) = false := h
-  rw [((walkDir_agrees hm cfg hk t [] _).cold h').1]
+  rw [((walkDir_agrees pollFree_yieldOf hl cfg hk t [] _).cold h').1]
 
-/-- the values yielded under a monotone oracle are a prefix of the uninterrupted results -/
-theorem run_prefix {o : Oracle} (hm : Mono o) {cfg : Cfg} {hk : Hooks V} (hs : DirSilent cfg hk) (t : Tree) :
-    results (run o cfg hk t) <+: results (pureRun cfg hk t) := by
+/-- under a latched oracle every poll-free view of the run is a prefix of that view of the
+    uninterrupted run -/
+theorem run_view_prefix {W : Type} {g : Ev V → Option W} (hg : PollFree g) {o : Oracle} (hl : Latched o)
+    (cfg : Cfg) (hk : Hooks V) (t : Tree) :
+    (run o cfg hk t).filterMap g <+: (pureRun cfg hk t).filterMap g := by
   unfold run pureRun
-  simp only [results_reset]
-  exact (walkDir_agrees hm cfg hk t [] _).pre hs
+  have h := (walkDir_agrees hg hl cfg hk t [] (advance {} [(Ev.reset : Ev V)])).pre
+  rw [List.filterMap_cons, List.filterMap_cons]
+  cases g Ev.reset with
+  | none => exact h
+  | some w => exact (List.prefix_cons_inj w).mpr h
+
+/-- the values yielded under a latched (in particular: a monotone) oracle are a prefix of the
+    uninterrupted results -/
+theorem run_prefix {o : Oracle} (hl : Latched o) (cfg : Cfg) (hk : Hooks V) (t : Tree) :
+    results (run o cfg hk t) <+: results (pureRun cfg hk t) :=
+  run_view_prefix pollFree_yieldOf hl cfg hk t
 
 /-- the flag is already set when the run starts: one poll, nothing else -/
 theorem run_hot {o : Oracle} (cfg : Cfg) (hk : Hooks V) (t : Tree)
@@ -503,7 +556,11 @@ theorem routed_walkDir_of_subs (o : Oracle) (cfg : Cfg) (hk : Hooks V) (t : Tree
   unfold walkDir dirBody
   split
   · exact (Routed.nil hk).poll _ _
-  · exact ((routed_dirLoop o cfg hk rel _ _).append ((routed_fileLoop o cfg hk rel _ _).append (hsub _ _ _))).poll _ _
+  · dsimp only
+    split
+    · exact ((routed_dirLoop o cfg hk rel _ _).append ((Routed.nil hk).poll _ _)).poll _ _
+    · exact ((routed_dirLoop o cfg hk rel _ _).append
+        (((routed_fileLoop o cfg hk rel _ _).append (hsub _ _ _)).poll _ _)).poll _ _
 
 theorem routed_walkSubs (o : Oracle) (cfg : Cfg) (hk : Hooks V) :
     ∀ (t : Tree) (rel : RelPath) (kept : List Name) (c : Ctr), Routed hk (walkSubs o cfg hk rel kept t c).evs := by
@@ -751,8 +808,8 @@ theorem fileVisits_pureRun_default {cfg : Cfg} (hn : cfg.NoRaise) (t : Tree) :
       exact ⟨fun h => h.2, fun h => ⟨hm, h⟩⟩)
   unfold pureRun pureDir reachable
   simp only [fileVisits, List.filterMap_cons, visitOf_reset, visitOf_poll]
-  change fileVisits (_ ++ (_ ++ _)) = _
-  rw [fileVisits_append, fileVisits_append, fileVisits_pureDirEvs, fileVisits_pureFileEvs, hsub]
+  change fileVisits (_ ++ (Ev.poll Site.mid false :: (_ ++ _))) = _
+  rw [fileVisits_append, fileVisits_poll, fileVisits_append, fileVisits_pureDirEvs, fileVisits_pureFileEvs, hsub]
   simp only [List.nil_append, List.map_append, List.map_map]
   congr 1
   apply List.map_congr_left
@@ -786,14 +843,20 @@ theorem visitPaths_walkDir_of_subs (o : Oracle) (cfg : Cfg) (hk : Hooks V) (t : 
     ∀ rel c, (visitPaths (walkDir o cfg hk rel t c).evs).Sublist (allFiles cfg.symlinks rel t) := by
   intro rel c
   unfold walkDir dirBody allFiles
+  have this : ∀ (s : Site) (b : Bool) (l : List (Ev V)), visitPaths (Ev.poll s b :: l) = visitPaths l :=
+    fun _ _ _ => rfl
   split
   · exact List.nil_sublist _
   · have hd : visitPaths (dirLoop o cfg hk rel (dirNames t) (c.tick (Ev.poll Site.top false : Ev V))).1 = [] := by
       simp [visitPaths, fileVisits_dirLoop]
-    show (visitPaths (Ev.poll Site.top false :: _)).Sublist _
-    have : ∀ l : List (Ev V), visitPaths (Ev.poll Site.top false :: l) = visitPaths l := fun _ => rfl
-    rw [this, visitPaths_append, visitPaths_append, hd, List.nil_append]
-    exact (visitPaths_fileLoop o cfg hk rel _ _).append (hsub _ _ _)
+    dsimp only
+    split
+    · show (visitPaths (Ev.poll Site.top false :: (_ ++ [Ev.poll Site.mid true]))).Sublist _
+      rw [this, visitPaths_append, hd, this]
+      exact List.nil_sublist _
+    · show (visitPaths (Ev.poll Site.top false :: (_ ++ Ev.poll Site.mid false :: (_ ++ _)))).Sublist _
+      rw [this, visitPaths_append, this, visitPaths_append, hd, List.nil_append]
+      exact (visitPaths_fileLoop o cfg hk rel _ _).append (hsub _ _ _)
 
 theorem enters_walkable {cfg : Cfg} {kept : List Name} {n : Name} {k : Kind} (h : enters cfg kept n k = true) :
     k.walkable cfg.symlinks = true := by
@@ -965,9 +1028,6 @@ def noPoll (l : List (Ev V)) : Bool := l.all (fun e => match e with | .poll _ _ 
 def quiet (l : List (Ev V)) : Bool :=
   l.all (fun e => match e with | .vdir _ => false | .poll _ false => false | _ => true)
 
-theorem quiet_append (a b : List (Ev V)) : quiet (a ++ b) = (quiet a && quiet b) := by
-  simp [quiet, List.all_append]
-
 theorem afterTrue_noPoll : ∀ (a b : List (Ev V)), noPoll a = true → afterTrue (a ++ b) = afterTrue b := by
   intro a
   induction a with
@@ -992,7 +1052,6 @@ theorem afterTrue_append : ∀ (a b : List (Ev V)),
     | _ => simp [afterTrue, ih]
 
 theorem noPoll_yieldOpt (x : Option V) : noPoll (yieldOpt x) = true := by cases x <;> rfl
-theorem quiet_yieldOpt (x : Option V) : quiet (yieldOpt x) = true := by cases x <;> rfl
 
 theorem noPoll_dirStep (cfg : Cfg) (hk : Hooks V) (rel : RelPath) (n : Name) :
     noPoll (dirStep cfg hk rel n).1 = true := by
@@ -1020,68 +1079,29 @@ theorem noPoll_fileStep (cfg : Cfg) (hk : Hooks V) (rel : RelPath) (n : Name) :
       cases h : hk.onSkip (rel ++ [n]) <;> cases h' : hk.onError (rel ++ [n]) <;>
         simp [noPoll, yieldOpt, h, h']
 
-theorem quiet_fileStep (cfg : Cfg) (hk : Hooks V) (rel : RelPath) (n : Name) :
-    quiet (fileStep cfg hk rel n) = true := by
-  have hsh := validFile_shape cfg hk rel n
-  unfold fileStep
-  generalize validFile cfg hk rel n = r at hsh
-  obtain ⟨e, res⟩ := r
-  simp only at hsh
-  cases res with
-  | ret b =>
-    cases b <;> rcases hsh with rfl | rfl <;>
-      cases h : hk.onSkip (rel ++ [n]) <;> simp [quiet, yieldOpt, h]
-  | raise =>
-    rcases hsh with rfl | rfl <;>
-      cases h : hk.onSkip (rel ++ [n]) <;> cases h' : hk.onError (rel ++ [n]) <;>
-        simp [quiet, yieldOpt, h, h']
-
-/-- at most `b` file visits, no directory validation, every poll answers true -/
-def Calm (b : Nat) (l : List (Ev V)) : Prop := (fileVisits l).length ≤ b ∧ quiet l = true
-
-theorem Calm.nil : Calm 0 ([] : List (Ev V)) := ⟨Nat.le_refl _, rfl⟩
-
-theorem Calm.append {b1 b2 : Nat} {l1 l2 : List (Ev V)} (h1 : Calm b1 l1) (h2 : Calm b2 l2) :
-    Calm (b1 + b2) (l1 ++ l2) := by
-  refine ⟨?_, ?_⟩
-  · rw [fileVisits_append, List.length_append]
-    exact Nat.add_le_add h1.1 h2.1
-  · rw [quiet_append, h1.2, h2.2]; rfl
-
-theorem Calm.mono {b b' : Nat} {l : List (Ev V)} (h : Calm b l) (hb : b ≤ b') : Calm b' l :=
-  ⟨Nat.le_trans h.1 hb, h.2⟩
-
 /-- the clock is hot on entry: `walkDir` polls once and leaves the walk -/
 theorem walkDir_hot {o : Oracle} (cfg : Cfg) (hk : Hooks V) (rel : RelPath) (t : Tree) (c : Ctr)
     (h : o c = true) : walkDir o cfg hk rel t c = ⟨[.poll .top true], true⟩ := by
   unfold walkDir dirBody
   simp [h]
 
+/-- the clock is hot on entry: `os.walk` either has no directory left to go to, or the next
+    directory polls once and leaves the walk -/
 theorem walkSubs_hot {o : Oracle} (cfg : Cfg) (hk : Hooks V) :
     ∀ (t : Tree) (rel : RelPath) (kept : List Name) (c : Ctr), o c = true →
-      Calm 0 (walkSubs o cfg hk rel kept t c).evs := by
+      walkSubs o cfg hk rel kept t c = ⟨[], false⟩ ∨
+      walkSubs o cfg hk rel kept t c = ⟨[.poll .top true], true⟩ := by
   intro t
   induction t with
-  | nil => intro rel kept c _; exact Calm.nil
+  | nil => intro rel kept c _; exact Or.inl rfl
   | cons n k sub rest _ ihr =>
     intro rel kept c h
     rw [walkSubs_cons, walkDir_hot cfg hk (rel ++ [n]) sub c h]
     split
-    · simp only [if_true]
-      exact ⟨Nat.le_refl _, rfl⟩
+    · simp
     · exact ihr rel kept c h
 
-theorem fileLoop_hot {o : Oracle} (hm : Mono o) (cfg : Cfg) (hk : Hooks V) (rel : RelPath)
-    (ns : List Name) (c : Ctr) (h : o c = true) : Calm 1 (fileLoop o cfg hk rel ns c) := by
-  cases ns with
-  | nil => exact Calm.nil.mono (Nat.zero_le _)
-  | cons n ns =>
-    simp only [fileLoop, hm.adv (fileStep cfg hk rel n) h, if_true]
-    refine ⟨?_, ?_⟩
-    · rw [fileVisits_append, fileVisits_fileStep]; exact Nat.le_refl _
-    · rw [quiet_append, quiet_fileStep]; rfl
-
-theorem dirLoop_after {o : Oracle} (hm : Mono o) (cfg : Cfg) (hk : Hooks V) (rel : RelPath) :
+theorem dirLoop_after {o : Oracle} (hl : Latched o) (cfg : Cfg) (hk : Hooks V) (rel : RelPath) :
     ∀ (ns : List Name) (c : Ctr),
       afterTrue (dirLoop o cfg hk rel ns c).1 = none ∨
       (afterTrue (dirLoop o cfg hk rel ns c).1 = some (.folder, []) ∧
@@ -1097,13 +1117,13 @@ theorem dirLoop_after {o : Oracle} (hm : Mono o) (cfg : Cfg) (hk : Hooks V) (rel
       simp only [if_true]
       right
       rw [afterTrue_noPoll _ _ (noPoll_dirStep cfg hk rel n), advance_append]
-      exact ⟨rfl, hm.adv _ hc⟩
+      exact ⟨rfl, hl.adv1 _ _ hc⟩
     | false =>
       simp only [Bool.false_eq_true, if_false]
       rw [afterTrue_noPoll _ _ (noPoll_dirStep cfg hk rel n), advance_append, advance_cons]
       exact ih _
 
-theorem fileLoop_after {o : Oracle} (hm : Mono o) (cfg : Cfg) (hk : Hooks V) (rel : RelPath) :
+theorem fileLoop_after {o : Oracle} (hl : Latched o) (cfg : Cfg) (hk : Hooks V) (rel : RelPath) :
     ∀ (ns : List Name) (c : Ctr),
       afterTrue (fileLoop o cfg hk rel ns c) = none ∨
       (afterTrue (fileLoop o cfg hk rel ns c) = some (.file, []) ∧
@@ -1119,66 +1139,115 @@ theorem fileLoop_after {o : Oracle} (hm : Mono o) (cfg : Cfg) (hk : Hooks V) (re
       simp only [if_true]
       right
       rw [afterTrue_noPoll _ _ (noPoll_fileStep cfg hk rel n), advance_append]
-      exact ⟨rfl, hm.adv _ hc⟩
+      exact ⟨rfl, hl.adv1 _ _ hc⟩
     | false =>
       simp only [Bool.false_eq_true, if_false]
       rw [afterTrue_noPoll _ _ (noPoll_fileStep cfg hk rel n), advance_append, advance_cons]
       exact ih _
 
-/-- the bound the code gives: after a true poll at the folder site one more file may be visited
-    (the folder loop is left BEFORE the file loop runs), after the other two sites none -/
-def bound : Site → Nat
-  | .folder => 1
-  | _ => 0
+/-- What the code does after the FIRST poll that observed the flag (at site `s`): nothing at all after
+    the top-of-directory poll and after the poll that follows the folder loop (both leave the walk);
+    after the after-folder poll exactly the poll that follows the folder loop (it answers true and
+    leaves the walk); after the after-file poll at most the top-of-directory poll of the next
+    directory (it answers true and leaves the walk).  No hook is invoked, no file visited, no
+    directory validated, no value yielded. -/
+def After (s : Site) (post : List (Ev V)) : Prop :=
+  match s with
+  | .top => post = []
+  | .mid => post = []
+  | .folder => post = [.poll .mid true]
+  | .file => post = [] ∨ post = [.poll .top true]
+
+/-- `After`, together with whether the `os.walk` loop has been left -/
+def Fin (s : Site) (post : List (Ev V)) (stop : Bool) : Prop :=
+  match s with
+  | .top => post = [] ∧ stop = true
+  | .mid => post = [] ∧ stop = true
+  | .folder => post = [.poll .mid true] ∧ stop = true
+  | .file => (post = [] ∧ stop = false) ∨ (post = [.poll .top true] ∧ stop = true)
+
+theorem Fin.after {s : Site} {post : List (Ev V)} {stop : Bool} (h : Fin s post stop) : After s post := by
+  cases s <;> simp only [Fin, After] at h ⊢
+  · exact h.1
+  · exact h.1
+  · exact h.1
+  · rcases h with h | h
+    · exact Or.inl h.1
+    · exact Or.inr h.1
+
+/-- a component that has not left the walk although a poll has observed the flag: that poll was the
+    last event, at the file site -/
+theorem Fin.running {s : Site} {post : List (Ev V)} (h : Fin s post false) : s = .file ∧ post = [] := by
+  cases s <;> simp [Fin] at h
+  exact ⟨rfl, h⟩
 
 def Over (o : Oracle) (c : Ctr) (evs : List (Ev V)) (stop : Bool) : Prop :=
   match afterTrue evs with
   | none => stop = false
-  | some (s, post) => Calm (bound s) post ∧ o (advance c evs) = true
+  | some (s, post) => o (advance c evs) = true ∧ Fin s post stop
 
-theorem walkDir_over_of_subs {o : Oracle} (hm : Mono o) (cfg : Cfg) (hk : Hooks V) (t : Tree)
+theorem walkDir_over_of_subs {o : Oracle} (hl : Latched o) (cfg : Cfg) (hk : Hooks V) (t : Tree)
     (hsub : ∀ rel kept c, Over o c (walkSubs o cfg hk rel kept t c).evs (walkSubs o cfg hk rel kept t c).stop) :
     ∀ rel c, Over o c (walkDir o cfg hk rel t c).evs (walkDir o cfg hk rel t c).stop := by
   intro rel c
   cases hc : o c with
   | true =>
     rw [walkDir_hot cfg hk rel t c hc]
-    exact ⟨Calm.nil, hm.adv _ hc⟩
+    exact ⟨hl.adv1 _ _ hc, rfl, rfl⟩
   | false =>
     unfold walkDir dirBody
     simp only [hc, Bool.false_eq_true, if_false]
     generalize hc1 : c.tick (Ev.poll Site.top false : Ev V) = c1
-    have hD := dirLoop_after hm cfg hk rel (dirNames t) c1
+    have hD := dirLoop_after hl cfg hk rel (dirNames t) c1
     generalize hd : dirLoop o cfg hk rel (dirNames t) c1 = d at hD
     generalize hc2 : advance c1 d.1 = c2 at hD
-    have hF := fileLoop_after hm cfg hk rel (fileNames t) c2
-    have hFh := fileLoop_hot hm cfg hk rel (fileNames t) c2
-    generalize hf : fileLoop o cfg hk rel (fileNames t) c2 = f at hF hFh
-    generalize hc3 : advance c2 f = c3 at hF
-    have hS := hsub rel d.2 c3
-    have hSh := walkSubs_hot cfg hk t rel d.2 c3 (o := o)
-    generalize hsv : walkSubs o cfg hk rel d.2 t c3 = s at hS hSh
-    have hadv : advance c (Ev.poll Site.top false :: (d.1 ++ (f ++ s.evs))) = advance c3 s.evs := by
-      rw [advance_cons, hc1, advance_append, hc2, advance_append, hc3]
-    unfold Over at *
-    simp only [afterTrue, hadv]
-    rw [afterTrue_append]
-    rcases hD with hD | ⟨hD, hD2⟩
-    · rw [hD]
-      simp only
+    cases h2 : o c2 with
+    | true =>
+      simp only [if_true]
+      have hadv : advance c (Ev.poll Site.top false :: (d.1 ++ [(Ev.poll Site.mid true : Ev V)]))
+          = advance c2 [(Ev.poll Site.mid true : Ev V)] := by
+        rw [advance_cons, hc1, advance_append, hc2]
+      unfold Over
+      simp only [afterTrue, hadv]
+      rw [afterTrue_append]
+      rcases hD with hD | ⟨hD, _⟩
+      · rw [hD]
+        exact ⟨hl.adv1 _ _ h2, rfl, rfl⟩
+      · rw [hD]
+        exact ⟨hl.adv1 _ _ h2, rfl, rfl⟩
+    | false =>
+      simp only [Bool.false_eq_true, if_false]
+      have hDn : afterTrue d.1 = none := by
+        rcases hD with hD | ⟨_, hD2⟩
+        · exact hD
+        · rw [h2] at hD2; cases hD2
+      generalize hc2' : c2.tick (Ev.poll Site.mid false : Ev V) = c2'
+      have hF := fileLoop_after hl cfg hk rel (fileNames t) c2'
+      generalize hf : fileLoop o cfg hk rel (fileNames t) c2' = f at hF
+      generalize hc3 : advance c2' f = c3 at hF
+      have hS := hsub rel d.2 c3
+      have hSh := walkSubs_hot cfg hk t rel d.2 c3 (o := o)
+      generalize hsv : walkSubs o cfg hk rel d.2 t c3 = s at hS hSh
+      have hadv : advance c (Ev.poll Site.top false :: (d.1 ++ (Ev.poll Site.mid false :: (f ++ s.evs))))
+          = advance c3 s.evs := by
+        rw [advance_cons, hc1, advance_append, hc2, advance_cons, hc2', advance_append, hc3]
+      unfold Over at *
+      simp only [afterTrue, hadv]
+      rw [afterTrue_append, hDn]
+      simp only [afterTrue]
       rw [afterTrue_append]
       rcases hF with hF | ⟨hF, hF2⟩
       · rw [hF]
         exact hS
       · rw [hF]
         simp only [List.nil_append]
-        exact ⟨hSh hF2, hm.adv _ hF2⟩
-    · rw [hD]
-      simp only [List.nil_append]
-      have h3 : o c3 = true := by rw [← hc3]; exact hm.adv _ hD2
-      exact ⟨(hFh hD2).append (hSh h3), hm.adv _ h3⟩
+        rcases hSh hF2 with h | h
+        · rw [h]
+          exact ⟨hF2, Or.inl ⟨rfl, rfl⟩⟩
+        · rw [h]
+          exact ⟨hl.adv1 _ _ hF2, Or.inr ⟨rfl, rfl⟩⟩
 
-theorem walkSubs_over {o : Oracle} (hm : Mono o) (cfg : Cfg) (hk : Hooks V) :
+theorem walkSubs_over {o : Oracle} (hl : Latched o) (cfg : Cfg) (hk : Hooks V) :
     ∀ (t : Tree) (rel : RelPath) (kept : List Name) (c : Ctr),
       Over o c (walkSubs o cfg hk rel kept t c).evs (walkSubs o cfg hk rel kept t c).stop := by
   intro t
@@ -1189,7 +1258,7 @@ theorem walkSubs_over {o : Oracle} (hm : Mono o) (cfg : Cfg) (hk : Hooks V) :
     rw [walkSubs_cons]
     by_cases he : enters cfg kept n k = true
     · simp only [he, if_true]
-      have hD := walkDir_over_of_subs hm cfg hk sub ihs (rel ++ [n]) c
+      have hD := walkDir_over_of_subs hl cfg hk sub ihs (rel ++ [n]) c
       generalize walkDir o cfg hk (rel ++ [n]) sub c = r at hD
       cases hst : r.stop with
       | true => simpa using hD
@@ -1206,20 +1275,211 @@ theorem walkSubs_over {o : Oracle} (hm : Mono o) (cfg : Cfg) (hk : Hooks V) :
           obtain ⟨s, post⟩ := sp
           rw [ha] at hD
           simp only at hD ⊢
-          have := (hD.1.append (hRh hD.2))
-          exact ⟨this, hm.adv _ hD.2⟩
+          rw [hst] at hD
+          obtain ⟨rfl, rfl⟩ := hD.2.running
+          rcases hRh hD.1 with h | h
+          · rw [h]
+            exact ⟨hD.1, Or.inl ⟨rfl, rfl⟩⟩
+          · rw [h]
+            exact ⟨hl.adv1 _ _ hD.1, Or.inr ⟨rfl, rfl⟩⟩
     · simp only [he, Bool.false_eq_true, if_false]
       exact ihr rel kept c
 
-theorem run_over {o : Oracle} (hm : Mono o) (cfg : Cfg) (hk : Hooks V) (t : Tree) :
-    ∀ s post, afterTrue (run o cfg hk t) = some (s, post) → Calm (bound s) post := by
+theorem run_over {o : Oracle} (hl : Latched o) (cfg : Cfg) (hk : Hooks V) (t : Tree) :
+    ∀ s post, afterTrue (run o cfg hk t) = some (s, post) → After s post := by
   intro s post h
-  have hO := walkDir_over_of_subs hm cfg hk t (walkSubs_over hm cfg hk t) [] (advance {} [(Ev.reset : Ev V)])
+  have hO := walkDir_over_of_subs hl cfg hk t (walkSubs_over hl cfg hk t) [] (advance {} [(Ev.reset : Ev V)])
   unfold run at h
   simp only [afterTrue] at h
   unfold Over at hO
   rw [h] at hO
-  exact hO.1
+  exact hO.2.after
+
+/-- `After` in the vocabulary of the property: no file is visited, no directory validated, every poll
+    answers true, no value is yielded, no hook is invoked -/
+theorem After.calm {s : Site} {post : List (Ev V)} (h : After s post) :
+    fileVisits post = [] ∧ quiet post = true ∧ results post = [] ∧ post.filterMap nonPoll = [] ∧
+      post.length ≤ 1 := by
+  cases s <;> simp only [After] at h
+  · subst h; exact ⟨rfl, rfl, rfl, rfl, Nat.zero_le _⟩
+  · subst h; exact ⟨rfl, rfl, rfl, rfl, Nat.le_refl _⟩
+  · subst h; exact ⟨rfl, rfl, rfl, rfl, Nat.zero_le _⟩
+  · rcases h with h | h <;> subst h
+    · exact ⟨rfl, rfl, rfl, rfl, Nat.zero_le _⟩
+    · exact ⟨rfl, rfl, rfl, rfl, Nat.le_refl _⟩
+
+/-! ### pacing: between two consecutive polls the walk works on one path only (every oracle) -/
+
+/-- the path a hook invocation is about -/
+def pathOf : Ev V → Option RelPath
+  | .vdir p => some p
+  | .vfile p => some p
+  | .hmatch p => some p
+  | .hskip p => some p
+  | .herror p => some p
+  | _ => none
+
+/-- all hook invocations between two consecutive polls are about one path (`cur`: the path of the
+    hook invocations seen since the last poll) -/
+def paced : Option RelPath → List (Ev V) → Bool
+  | _, [] => true
+  | cur, e :: l =>
+    match e with
+    | .poll _ _ => paced none l
+    | e =>
+      match pathOf e with
+      | none => paced cur l
+      | some q => (match cur with | none => true | some p => q == p) && paced (some q) l
+
+/-- a poll-free piece of work about the path `p` -/
+def stepFor (p : RelPath) (s : List (Ev V)) : Bool :=
+  s.all (fun e => match e with
+    | .poll _ _ => false
+    | e => match pathOf e with
+      | none => true
+      | some q => q == p)
+
+theorem paced_step (p : RelPath) (site : Site) (b : Bool) (l : List (Ev V)) :
+    ∀ s : List (Ev V), stepFor p s = true →
+      paced (some p) (s ++ .poll site b :: l) = paced none l ∧
+      paced none (s ++ .poll site b :: l) = paced none l := by
+  intro s
+  induction s with
+  | nil => intro _; exact ⟨rfl, rfl⟩
+  | cons e s ih =>
+    intro h
+    simp only [stepFor, List.all_cons, Bool.and_eq_true] at h
+    have ih' := ih (by simpa [stepFor] using h.2)
+    have h1 := h.1
+    cases e with
+    | poll s' b' => simp at h1
+    | reset => simpa [paced, pathOf] using ih'
+    | yield v => simpa [paced, pathOf] using ih'
+    | vdir q =>
+      have hq : q = p := by simpa [pathOf] using h1
+      subst hq
+      simpa [paced, pathOf] using ih'.1
+    | vfile q =>
+      have hq : q = p := by simpa [pathOf] using h1
+      subst hq
+      simpa [paced, pathOf] using ih'.1
+    | hmatch q =>
+      have hq : q = p := by simpa [pathOf] using h1
+      subst hq
+      simpa [paced, pathOf] using ih'.1
+    | hskip q =>
+      have hq : q = p := by simpa [pathOf] using h1
+      subst hq
+      simpa [paced, pathOf] using ih'.1
+    | herror q =>
+      have hq : q = p := by simpa [pathOf] using h1
+      subst hq
+      simpa [paced, pathOf] using ih'.1
+
+theorem stepFor_dirStep (cfg : Cfg) (hk : Hooks V) (rel : RelPath) (n : Name) :
+    stepFor (rel ++ [n]) (dirStep cfg hk rel n).1 = true := by
+  have hsh := validFolder_shape cfg hk rel n
+  unfold dirStep
+  generalize validFolder cfg hk rel n = r at hsh
+  obtain ⟨e, res⟩ := r
+  simp only at hsh
+  cases res <;> rcases hsh with rfl | rfl <;>
+    cases h : hk.onError (rel ++ [n]) <;> simp [stepFor, pathOf, yieldOpt]
+
+theorem stepFor_fileStep (cfg : Cfg) (hk : Hooks V) (rel : RelPath) (n : Name) :
+    stepFor (rel ++ [n]) (fileStep cfg hk rel n) = true := by
+  have hsh := validFile_shape cfg hk rel n
+  unfold fileStep
+  generalize validFile cfg hk rel n = r at hsh
+  obtain ⟨e, res⟩ := r
+  simp only at hsh
+  cases res with
+  | ret b =>
+    cases b <;> rcases hsh with rfl | rfl <;>
+      cases h : hk.onSkip (rel ++ [n]) <;> simp [stepFor, pathOf, yieldOpt, h]
+  | raise =>
+    rcases hsh with rfl | rfl <;>
+      cases h : hk.onSkip (rel ++ [n]) <;> cases h' : hk.onError (rel ++ [n]) <;>
+        simp [stepFor, pathOf, yieldOpt, h, h']
+
+/-- a piece of the run that starts right after a poll and ends with one -/
+def Blocks (evs : List (Ev V)) : Prop := ∀ l : List (Ev V), paced none (evs ++ l) = paced none l
+
+theorem Blocks.nil : Blocks ([] : List (Ev V)) := fun _ => rfl
+
+theorem Blocks.append {a b : List (Ev V)} (ha : Blocks a) (hb : Blocks b) : Blocks (a ++ b) := by
+  intro l
+  rw [List.append_assoc, ha, hb]
+
+theorem Blocks.poll (s : Site) (b : Bool) {a : List (Ev V)} (ha : Blocks a) : Blocks (.poll s b :: a) :=
+  fun l => ha l
+
+theorem Blocks.step {p : RelPath} {s : List (Ev V)} (hs : stepFor p s = true) (site : Site) (b : Bool)
+    {a : List (Ev V)} (ha : Blocks a) : Blocks (s ++ .poll site b :: a) := by
+  intro l
+  rw [List.append_assoc, List.cons_append, (paced_step p site b (a ++ l) s hs).2]
+  exact ha l
+
+theorem blocks_dirLoop (o : Oracle) (cfg : Cfg) (hk : Hooks V) (rel : RelPath) :
+    ∀ (ns : List Name) (c : Ctr), Blocks (dirLoop o cfg hk rel ns c).1 := by
+  intro ns
+  induction ns with
+  | nil => intro c; exact Blocks.nil
+  | cons n ns ih =>
+    intro c
+    simp only [dirLoop]
+    split
+    · exact Blocks.step (stepFor_dirStep cfg hk rel n) _ _ Blocks.nil
+    · exact Blocks.step (stepFor_dirStep cfg hk rel n) _ _ (ih _)
+
+theorem blocks_fileLoop (o : Oracle) (cfg : Cfg) (hk : Hooks V) (rel : RelPath) :
+    ∀ (ns : List Name) (c : Ctr), Blocks (fileLoop o cfg hk rel ns c) := by
+  intro ns
+  induction ns with
+  | nil => intro c; exact Blocks.nil
+  | cons n ns ih =>
+    intro c
+    simp only [fileLoop]
+    split
+    · exact Blocks.step (stepFor_fileStep cfg hk rel n) _ _ Blocks.nil
+    · exact Blocks.step (stepFor_fileStep cfg hk rel n) _ _ (ih _)
+
+theorem blocks_walkDir_of_subs (o : Oracle) (cfg : Cfg) (hk : Hooks V) (t : Tree)
+    (hsub : ∀ rel kept c, Blocks (walkSubs o cfg hk rel kept t c).evs) :
+    ∀ rel c, Blocks (walkDir o cfg hk rel t c).evs := by
+  intro rel c
+  unfold walkDir dirBody
+  split
+  · exact Blocks.nil.poll _ _
+  · dsimp only
+    split
+    · exact ((blocks_dirLoop o cfg hk rel _ _).append (Blocks.nil.poll _ _)).poll _ _
+    · exact ((blocks_dirLoop o cfg hk rel _ _).append
+        (((blocks_fileLoop o cfg hk rel _ _).append (hsub _ _ _)).poll _ _)).poll _ _
+
+theorem blocks_walkSubs (o : Oracle) (cfg : Cfg) (hk : Hooks V) :
+    ∀ (t : Tree) (rel : RelPath) (kept : List Name) (c : Ctr), Blocks (walkSubs o cfg hk rel kept t c).evs := by
+  intro t
+  induction t with
+  | nil => intro rel kept c; exact Blocks.nil
+  | cons n k sub rest ihs ihr =>
+    intro rel kept c
+    rw [walkSubs_cons]
+    have hD := blocks_walkDir_of_subs o cfg hk sub ihs (rel ++ [n]) c
+    split
+    · split
+      · exact hD
+      · exact hD.append (ihr _ _ _)
+    · exact ihr _ _ _
+
+/-- for EVERY oracle: between two consecutive polls of a run all hook invocations are about one path -/
+theorem paced_run (o : Oracle) (cfg : Cfg) (hk : Hooks V) (t : Tree) : paced none (run o cfg hk t) = true := by
+  unfold run
+  have h := blocks_walkDir_of_subs o cfg hk t (blocks_walkSubs o cfg hk t) [] (advance {} [(Ev.reset : Ev V)]) []
+  rw [List.append_nil] at h
+  show paced none (walkDir o cfg hk [] t (advance {} [(Ev.reset : Ev V)])).evs = true
+  rw [h]
+  rfl
 
 /-! ### without SYMLINKS the walk never looks behind a directory link -/
 
@@ -1350,10 +1610,16 @@ theorem noReset_walkDir_of_subs (o : Oracle) (cfg : Cfg) (hk : Hooks V) (t : Tre
   split
   · rfl
   · have h1 := noReset_dirLoop o cfg hk rel (dirNames t) (c.tick (Ev.poll Site.top false : Ev V))
-    have hcons : ∀ l : List (Ev V), noReset (Ev.poll Site.top false :: l) = noReset l := fun _ => rfl
-    show noReset (Ev.poll Site.top false :: (_ ++ (_ ++ _))) = true
-    rw [hcons, noReset_append, noReset_append, h1, noReset_fileLoop, hsub]
-    rfl
+    have hcons : ∀ (s : Site) (b : Bool) (l : List (Ev V)), noReset (Ev.poll s b :: l) = noReset l :=
+      fun _ _ _ => rfl
+    dsimp only
+    split
+    · show noReset (Ev.poll Site.top false :: (_ ++ [Ev.poll Site.mid true])) = true
+      rw [hcons, noReset_append, h1]
+      rfl
+    · show noReset (Ev.poll Site.top false :: (_ ++ Ev.poll Site.mid false :: (_ ++ _))) = true
+      rw [hcons, noReset_append, hcons, noReset_append, h1, noReset_fileLoop, hsub]
+      rfl
 
 theorem noReset_walkSubs (o : Oracle) (cfg : Cfg) (hk : Hooks V) :
     ∀ (t : Tree) (rel : RelPath) (kept : List Name) (c : Ctr), noReset (walkSubs o cfg hk rel kept t c).evs = true := by
